@@ -118,7 +118,7 @@ func Erase(src string) *Erased {
 		depth := 0
 		j := i
 		last := -1
-		expectMore := true // true at the start and after | & 
+		expectMore := true // true at the start and after | &
 		for j < len(ts) {
 			t := ts[j]
 			if t.kind == 'w' || t.kind == 'c' {
